@@ -62,6 +62,11 @@ def float_text(x):
 
 def _ser(v, level, out):
     t = type(v)
+    # containers handed over in subclasses (OrderedDict, defaultdict, a list subclass) are the same JSON value; scalars stay strict
+    if t is not dict and isinstance(v, dict):
+        t = dict
+    elif t is not list and t is not tuple and isinstance(v, (list, tuple)):
+        t = list
     if v is None:
         out.append("null")
     elif t is bool:
@@ -148,10 +153,14 @@ def snapshot(v):
 
 def typed_eq(a, b):
     ta, tb = type(a), type(b)
-    if ta is tuple:
+    if isinstance(a, (tuple, list)):
         ta = list
-    if tb is tuple:
+    elif isinstance(a, dict):
+        ta = dict
+    if isinstance(b, (tuple, list)):
         tb = list
+    elif isinstance(b, dict):
+        tb = dict
     if ta is not tb:
         return False
     if ta is dict:
@@ -289,3 +298,22 @@ def version_successor(tv, nv):
         return Fraction(nv) == Fraction(tv) + 1
     except (TypeError, ValueError, OverflowError):
         return False
+
+
+# ------------------------------------------------------------------ dates
+# Documented form: YYYY-MM-DDTHH:MM:SSZ naming an existing instant.  The standard parser (strptime with that format) admits
+# a superset of it (unpadded fields, lower-case letters, other decimal digits).  Strings in the documented form are valid,
+# strings the standard parser refuses are invalid, the zone between is unspecified and never judged.
+_DATE_RE = re.compile(r"[0-9]{4}-[0-9]{2}-[0-9]{2}T[0-9]{2}:[0-9]{2}:[0-9]{2}Z")
+
+
+def date_status(v):
+    """'valid' | 'invalid' | 'unspecified'"""
+    import datetime as _dt
+    if type(v) is not str:
+        return "invalid"
+    try:
+        _dt.datetime.strptime(v, "%Y-%m-%dT%H:%M:%SZ")
+    except ValueError:
+        return "invalid"
+    return "valid" if _DATE_RE.fullmatch(v) else "unspecified"
